@@ -531,6 +531,21 @@ CLAIMED["C18"]["text"] += (" Round 8 (gapd): ONE call longer than the staging bu
     "vlib/c18long.py; SfProps/C18Long.lean pass_offset_units, mixed_units_differ).")
 
 
+CLAIMED["C08"]["text"] += (" Round 8: COMMANDS AS OPERATIONS (vlib/cmdops.py): every position-neutral sf_command (35, incl. the four SFC_CALC_*, header updates, getters, chunk iteration) x last operation {write, read, seek r / w / both} x next operation "
+                            "{write, read} without a seek, pointers at different frames, on every SFM_RDWR-capable encoding (every cell on 8 containers); Sf.Abs decides. Model Sf.AbsCalc (two pointers, descriptor, last_op), theorems lean/SfProps/C08Calc.lean: "
+                            "calc_same_pos / calc_coherent / calc_next_write_lands / calc_next_read_from for EVERY handle state; the seeded variants (tell first; last_op restored) are refuted.")
+CLAIMED["C17"]["text"] += (" Round 8: (1) the same command-as-operation campaign judges 'queries leave position and audio unchanged' where only the next write / read shows it; (2) WORD FILLS: every command whose struct holds a size / count field "
+                            "gets blocks made of one repeated 32-bit word (2^31-1, 2^31, 2^32-1, 2^32-16, 2^32 - offsetof (variable part) + d, 2^32 - sizeof + d, cue counts whose product wraps) at the boundary sizes; lean/SfProps/C17Size.lean: the 64-bit guard of "
+                            "cart_var_set / broadcast_var_set cannot wrap (minSize_no_wrap, guard64_exact, varSet_guard_is_c_guard), three of the four (width, copy bound) combinations are safe, 32-bit sum + field-bounded copy is refuted.")
+CLAIMED["C09"]["text"] += (" Round 8 (stage F, vlib/cmdfail.py): the FAILURE-VALUE TABLE of sf_command on write-only handles, read handles of non-seekable codecs and with wrong sizes / NULL -- convention `code` (non-zero = the recorded error) / `false` -- "
+                            "plus 'a CALC call that succeeds returns 0, leaves sf_error 0 and fills the result'; verdict Sf.AbsTwin.judge; lean/SfProps/C09CmdFail.lean: calc_all_refusal_convention, calc_all_success_clean at full strength over Sf.Command.run. "
+                            "KNOWN FINDING KF-C09-CALC-SIGNAL-MAX-RET0: SFC_CALC_[NORM_]SIGNAL_MAX refused (write-only / non-seekable) returns 0 with the error recorded (calc_signal_max_refusal_full_fails, _partial).")
+CLAIMED["C16"]["text"] += (" Round 8 (vlib/c16foreign.py): foreign-but-valid files (every vlib/foreign.py transformation, grown chunks, tiny JUNK chunks, metadata-rich bases) opened r / rw, closed idle / after reads / after an append: ledger + sf_close == 0; "
+                            "the four ALAC encodings with TMPDIR missing / a file / blocked (harness op `tmpenv`): the spool file created by psf_open_tmpfile's fallback in the current directory is removed. lean/SfProps/C16Tmp.lean (tmpfile_removed for every "
+                            "state of the temp directory; the fallback that does not record its name refuted), C16CloseRet.lean (close_returns_fclose_status; each seeded site alone harmless, both together refuted).")
+CLAIMED["C19"]["text"] += (" Round 8 (vlib/foreignworld.py): a FOREIGN file (metadata-rich base x every foreign transformation) opened r / rw next to a WRITER of the same container, 10 containers, merges roundrobin / reverse / sequential, solo vs merged. "
+                            "lean/SfProps/C19Text.lean: header_isolated -- under the rules `constant` (the code) and `handle` the header text of handle k's file is that of k's calls alone, for EVERY interleaving; the file-scope buffer is refuted.")
+
 def main():
     checks = []
     for p in PROPS:
